@@ -11,6 +11,7 @@ a model of (path condition and not claim) -> "refuted" (counterexample kept for 
 from __future__ import annotations
 
 import builtins
+import os
 import time
 
 import z3
@@ -62,9 +63,11 @@ class Result:
         self.inconclusive = []  # reasons
         self.wall_s = 0.0
         self.notes = {}
+        self.xcheck = {"asked": 0, "agree": 0, "no_verdict": 0, "disagree": []}  # second solver (cvc5) on sampled claims
 
     def as_dict(self):
         return {
+            "xcheck": self.xcheck,
             "status": self.status,
             "paths": self.paths,
             "aborted_paths": self.aborted_paths,
@@ -80,6 +83,22 @@ class Result:
             "wall_s": round(self.wall_s, 3),
             "notes": self.notes,
         }
+
+
+def merge_xcheck(agg, d):
+    """Sum the second-solver counters of one engine run into an aggregate result dict."""
+    x = d.get("xcheck")
+    if not x:
+        return
+    a = agg.setdefault("xcheck", {"asked": 0, "agree": 0, "no_verdict": 0, "disagree": []})
+    a["asked"] += x.get("asked", 0)
+    a["agree"] += x.get("agree", 0)
+    a["no_verdict"] += x.get("no_verdict", 0)
+    a["disagree"] += x.get("disagree", [])[:2]
+
+
+XCHECK_PER_ENGINE = int(os.environ.get("VERIF_XCHECK", "1") or 0)  # unsat claims per obligation re-decided by cvc5
+CVC5 = os.environ.get("VERIF_CVC5", "cvc5")
 
 
 class Engine:
@@ -104,6 +123,7 @@ class Engine:
         self.vars = {}  # name -> z3 const created through fresh()/var()
         self._fresh_n = 0
         self._t0 = 0.0
+        self.xcheck_left = XCHECK_PER_ENGINE
 
     # ---- solver plumbing -------------------------------------------------------------------
     def _check(self, *extra):
@@ -220,11 +240,43 @@ class Engine:
                 return False
             if r == z3.unsat:
                 self.res.claims_reached_nontrivially += 1
+                if self.xcheck_left > 0 and neg is not None:
+                    self.xcheck_left -= 1
+                    self._second_solver()
                 return True
             self.res.inconclusive.append("solver unknown at claim: %s" % self.solver.reason_unknown())
             return None
         finally:
             self.solver.pop()
+
+    def _second_solver(self):
+        """Re-decide the query z3 has just answered `unsat` (path condition and negated claim) with the cvc5 binary.
+        `unsat` agrees; `sat` is a disagreement between the solvers (reported as a harness error, never as a verdict
+        about pyrefact); a parse error, `unknown` or a timeout is no verdict (z3's sequence / regex theory symbols and
+        some non-linear queries are outside what cvc5 1.0 reads or decides in the time limit)."""
+        import subprocess
+        import tempfile
+
+        x = self.res.xcheck
+        x["asked"] += 1
+        try:
+            text = "(set-logic ALL)\n" + self.solver.to_smt2()
+            with tempfile.NamedTemporaryFile("w", suffix=".smt2", delete=True) as f:
+                f.write(text)
+                f.flush()
+                p = subprocess.run([CVC5, "--tlimit=4000", f.name], capture_output=True, text=True, timeout=10)
+            out = p.stdout.strip().splitlines()
+            verdict = out[0].strip() if out else ""
+            if "(error" in p.stdout or "(error" in p.stderr:
+                verdict = "error"
+        except Exception as e:  # noqa: BLE001 - binary missing, timeout ...
+            verdict = "error:%s" % type(e).__name__
+        if verdict == "unsat":
+            x["agree"] += 1
+        elif verdict == "sat":
+            x["disagree"].append(text[:2000])
+        else:
+            x["no_verdict"] += 1
 
     def reachable(self):
         """True when the current path condition is satisfiable (vacuity witness)."""
